@@ -1489,6 +1489,8 @@ def _fixStringValue(s, p):
             rv += '\r'
         elif ch == '\\':
             rv += '\\'
+        elif ch == "'":
+            rv += "'"
         elif ch in ['x', 'X']:
             hexc = 0
             j = 0
